@@ -179,6 +179,23 @@ func GenCMap(rng *rand.Rand, name string) *MCMap {
 		for j := 0; j < ne; j++ {
 			b.Entries = append(b.Entries, GenEntry(rng, kind))
 		}
+		if kind != "codespacerange" && ne >= 2 && ne < 100 && rng.IntN(4) == 0 {
+			// codes that differ only by trailing zero bytes (<41>, <4100>, <410000>),
+			// the longer one first: byte-wise order puts the shorter one first
+			k := 1 + rng.IntN(len(b.Entries)-1)
+			short := b.Entries[k]
+			if len(short.Lo) < 4 && (short.Hi == nil || len(short.Hi) == len(short.Lo)) {
+				long := GenEntry(rng, kind)
+				long.Lo = append(append([]byte(nil), short.Lo...), make([]byte, 1+rng.IntN(4-len(short.Lo)))...)
+				if long.Hi != nil {
+					long.Hi = append([]byte(nil), long.Lo...) // a range of one code
+					if long.Dst.Kind == "arr" {
+						long.Dst.Arr = long.Dst.Arr[:1]
+					}
+				}
+				b.Entries = append(b.Entries[:k], append([]MEntry{long}, b.Entries[k:]...)...)
+			}
+		}
 		b.Declared = len(b.Entries)
 		m.Blocks = append(m.Blocks, b)
 	}
@@ -262,7 +279,8 @@ func (m *MCMap) RenderBody(rng *rand.Rand) string {
 		case 1:
 			return "  "
 		case 2:
-			return " % comment\n"
+			// a comment ends at LF, CR or FF (PLRM 3.2.2): what follows a form feed is program text again
+			return []string{" % comment\n", " % comment\f", "%\f", " % (unbalanced [ <\r", "%% not a structured comment: mid-line\f "}[rng.IntN(5)]
 		case 3:
 			return "\r\n"
 		case 4:
